@@ -1,0 +1,31 @@
+// Copyright (c) 2019,CAOHONGJU All rights reserved.
+// Use of this source code is governed by a MIT-style
+// license that can be found in the LICENSE file.
+
+//go:build verif
+// +build verif
+
+// Package vhook provides verification schedule/observation points.
+package vhook
+
+import "sync/atomic"
+
+// Enabled reports whether hooks are compiled in.
+const Enabled = true
+
+var handler atomic.Value // of func(point string, obj interface{})
+
+// SetHandler installs (or with nil removes) the hook handler.
+func SetHandler(h func(point string, obj interface{})) {
+	if h == nil {
+		h = func(string, interface{}) {}
+	}
+	handler.Store(h)
+}
+
+// At marks a verification point.
+func At(point string, obj interface{}) {
+	if h, ok := handler.Load().(func(string, interface{})); ok && h != nil {
+		h(point, obj)
+	}
+}
